@@ -9,7 +9,7 @@ namespace Kopf.C20
 /-- label groups (only to split the preservation proofs over several files) -/
 def Label.grp : Label → Nat
   | .rootEnd _ _ => 1
-  | .rootStopping _ _ | .subStopping _ _ | .subEnd _ _ | .subSpawn _ | .withdraw _ => 2
+  | .rootStopping _ _ | .subStopping _ _ | .subEnd _ _ | .subSpawn _ | .withdraw _ | .subGone _ | .subCancel _ => 2
   | .workerStart _ | .workerEnd _ _ | .daemonSpawn | .daemonExit _ | .waiterEnd | .orphan | .orphanEnd
   | .act _ | .enter _ | .coreEnter | .coreEnd _ => 3
   | _ => 4
@@ -205,7 +205,7 @@ structure InvE (cfg : Cfg) (s : State) : Prop where
   orchErrJ : s.orchErr = true → cfg.fixed = true ∧
     ((s.st (.root .orchestrator) = .running ∧ s.creq (.root .orchestrator) = true)
       ∨ s.st (.root .orchestrator) = .stopping true none ∨ s.st (.root .orchestrator) = .failed)
-  fixedEdge : cfg.fixed = true → ∀ i, i < s.nSubs → s.st (.sub i) = .failed →
+  fixedEdge : cfg.fixed = true → ∀ i, i < s.nSubs → s.st (.sub i) = .failed → s.gone i = false →
     s.st (.root .orchestrator) = .running → s.creq (.root .orchestrator) = true
   dmPresent : ∀ d, d < s.nDaemons → s.dm d ≠ .absent
 
